@@ -67,6 +67,8 @@ func init() {
 			ruleAlgebra(c, "C02-R7", t, u, cut, false)
 			ruleStaleDrop(c, "C02-R7", t, u)
 		}
+		c.Rule("C02-R8", "MERGE-AGAINST-STORED: every key the iterator yields is merged with exactly the value stored under it in the same transaction (no path bypasses the lookup), and only that decision is applied")
+		ruleUpdateLoop(c, "C02-R8")
 		sampleTable(c, t, 40)
 		c.Notes = append(c.Notes, "universe: timestamps "+fmtU(u.TS)+", values "+fmtS(u.Vals)+", format versions "+fmtU(u.FVs))
 	})
@@ -91,6 +93,19 @@ func init() {
 		c.Rule("C03-R7", "CAPTURE-COMPLETE: the capture pass runs unconditionally in shadow mode and passes no application DBI over")
 		ruleSendDump(c, "C03-R7", "C03-R7", "C03-R7")
 		ruleMainToShadow(c, "C03-R7", "C03-R7", "C03-R7")
+		c.Rule("C03-R8", "LIVE-KEPT-UNLESS-BEATEN: in the merge table a stored version is replaced or removed only by an incoming version that wins last-writer-wins, for every stale-marker cutoff; the merge is always against the stored value")
+		if t := BuildMergeTable(c, "syncer.(*NativeIterator).Merge"); t != nil {
+			u := buildUniverse(t, c.Tier == "thorough")
+			if ruleTableTotal(c, "C03-R8", t, u, remoteCfgs) {
+				ruleLWWOrder(c, "C03-R8", t, u, remoteCfgs)
+			}
+			cut := []MCfg{{Cutoff: 1}, {Cutoff: 2}, {Cutoff: 3, Pad: true, CapBuf: 64}}
+			if ruleTableTotal(c, "C03-R8", t, u, cut) {
+				ruleAlgebra(c, "C03-R8", t, u, cut, false)
+				ruleStaleDrop(c, "C03-R8", t, u)
+			}
+		}
+		ruleUpdateLoop(c, "C03-R8")
 	})
 }
 
@@ -123,6 +138,11 @@ func init() {
 		ruleSweeperCutoff(c, "C04-R6")
 		ruleCutoffOrder(c, "C04-R7")
 		rulePlainIterator(c, "", "C04-R8")
+		if t != nil {
+			ruleDeletedNoValue(c, "C04-R3", t)
+		}
+		c.Rule("C04-R9", "DELETIONS-CAPTURED: in shadow mode the capture pass runs for every application DBI unconditionally (an emptied DBI included), so every disappeared key gets its marker")
+		ruleMainToShadow(c, "C04-R9", "C04-R9", "C04-R9")
 	})
 
 	register("C05", propMeta{
@@ -164,6 +184,9 @@ func init() {
 		ruleReadDBILoop(c, "C06-R3", false)
 		ruleSendNaming(c, "C06-R5")
 		ruleReadDBIFlags(c, "C06-R6", "C06-R6")
+		c.Rule("C06-R7", "NAME-STATES-TIME-AND-INSTANCE: the name's time field is the UTC rendering of the snapshot time with fixed-width nanoseconds; the instance field is sanitised so that the separators stay unambiguous")
+		ruleNameLayout(c, "C06-R7")
+		ruleSanitiser(c, "C06-R7")
 	})
 
 	register("C09", propMeta{
@@ -183,6 +206,8 @@ func init() {
 		c.Rule("C09-R5", "SYNCED-ID-BOUNDED: the id reported as synced is min(txn.ID(), LastTxnID)")
 		ruleSyncedIdBound(c, "C09-R5")
 		ruleSendDump(c, "C09-R5", "C09-R5", "C09-R5")
+		c.Rule("C09-R6", "CAPTURE-COMPLETE: in shadow mode every application DBI is captured unconditionally before the dump (an emptied DBI included)")
+		ruleMainToShadow(c, "C09-R6", "C09-R6", "C09-R6")
 	})
 
 	register("C10", propMeta{
